@@ -47,7 +47,7 @@ func init() {
 		Technique: "runtime monitoring: event-log model checker (slot, wake-up and request accounting, per-client order, convergence at event-defined quiescence) + client-side receive order + goroutine-state stall oracle + race detector",
 		DesignRef: "§4 C44, §2.3",
 		Rule:      "one case = one history; non-trivial when ≥3 distinct versions were delivered to some client and ≥1 compile request was coalesced; distinct by plan",
-		Race:      true, Chunk: 1, CPUBudget: 1800, WallBudget: 3000, MinNontrivial: 3,
+		Race:      true, Needs: []string{"d2race"}, Chunk: 1, CPUBudget: 1800, WallBudget: 3000, MinNontrivial: 3,
 		Gen: genC44, Exec: execC44, Post: postC44,
 		Assumptions: []string{
 			"verdicts are decided on the logged event order and event-count quiescence, never on elapsed time; the watchdog (no event logged for 300 s, or one wait longer than 20 min) only yields inconclusive",
@@ -77,6 +77,7 @@ type c44Plan struct {
 	Points map[string]d2cli.VerifAction `json:"points,omitempty"`
 	Steps  []c44Step                    `json:"steps"`
 	Rename bool                         `json:"rename,omitempty"`
+	Proc   bool                         `json:"proc,omitempty"` // drive a real `d2 --watch` process (thorough)
 	Tags   []string                     `json:"tags,omitempty"`
 }
 
@@ -84,16 +85,23 @@ var c44PointNames = []string{"cl-after-wake", "bc-between", "wl-before-select", 
 
 func genC44(seed int64, tier string, emit func(run.Case)) {
 	r := gen.New(seed)
-	n := tierN(tier, 20, 600)
+	n := tierN(tier, 20, 400)
 	for i := 0; i < n; i++ {
 		q := r.Sub(i)
-		p := c44GenPlan(q, tier, i)
+		p := c44GenPlan(q, tier, i, false)
 		emit(run.MkCase(fmt.Sprintf("h%04d", i), strings.Join(p.Tags, "+"), p))
+	}
+	// thorough: the same plans (minus failpoints) against a real `d2 --watch` process
+	// built with -race -tags verif that streams its trace to a file
+	for i := 0; i < tierN(tier, 0, 48); i++ {
+		q := r.Sub(100000 + i)
+		p := c44GenPlan(q, tier, i, true)
+		emit(run.MkCase(fmt.Sprintf("p%04d", i), strings.Join(p.Tags, "+"), p))
 	}
 }
 
-func c44GenPlan(q *gen.R, tier string, i int) c44Plan {
-	p := c44Plan{Init: "err", Points: map[string]d2cli.VerifAction{}}
+func c44GenPlan(q *gen.R, tier string, i int, proc bool) c44Plan {
+	p := c44Plan{Init: "err", Points: map[string]d2cli.VerifAction{}, Proc: proc}
 	if q.P(0.2) {
 		p.Init = "ok"
 	}
@@ -105,7 +113,7 @@ func c44GenPlan(q *gen.R, tier string, i int) c44Plan {
 		nW = q.Range(5, 30)
 	}
 	for _, name := range c44PointNames {
-		if q.P(0.35) {
+		if q.P(0.35) && !proc {
 			a := d2cli.VerifAction{Kind: "sleep", Ms: []int{1, 5, 20, 50}[q.Intn(4)], Every: 1 + q.Intn(3)}
 			if q.P(0.25) {
 				a = d2cli.VerifAction{Kind: "yield", Ms: 1 + q.Intn(4)}
@@ -128,7 +136,7 @@ func c44GenPlan(q *gen.R, tier string, i int) c44Plan {
 		}
 	}
 	gateAt := -1
-	if q.P(0.45) && nW >= 6 {
+	if q.P(0.45) && nW >= 6 && !proc {
 		gateAt = 1 + q.Intn(nW-4)
 		p.Tags = append(p.Tags, "gate")
 	}
@@ -222,7 +230,7 @@ func c44GenPlan(q *gen.R, tier string, i int) c44Plan {
 		if okLeft > 0 && q.P(0.5) {
 			kd = "ok"
 			okLeft--
-		} else if _, has := p.Points["cl-after-wake"]; !has {
+		} else if _, has := p.Points["cl-after-wake"]; !has && !proc {
 			p.Steps = append(p.Steps, c44Step{Op: "arm", Point: "cl-after-wake", Act: &d2cli.VerifAction{Kind: "sleep", Ms: 50}})
 		}
 		k++
@@ -244,6 +252,9 @@ func c44GenPlan(q *gen.R, tier string, i int) c44Plan {
 	if p.Rename {
 		p.Tags = append(p.Tags, "rename")
 	}
+	if proc {
+		p.Tags = append(p.Tags, "proc")
+	}
 	if len(p.Tags) == 0 {
 		p.Tags = []string{"plain"}
 	}
@@ -258,15 +269,27 @@ type c44Obs struct {
 func execC44(c run.Case) (res run.Result) {
 	var p c44Plan
 	c.Decode(&p)
-	h, err := c44Start("C44", &res, c44Content(0, p.Init), true)
+	var h *c44Env
+	var err error
+	if p.Proc {
+		h, err = c44StartProc(&res, c44Content(0, p.Init))
+		if h == nil && err == nil {
+			res.Inc("vacuous_no_d2_race_binary")
+			return
+		}
+	} else {
+		h, err = c44Start("C44", &res, c44Content(0, p.Init), true)
+	}
 	if err != nil {
 		res.Inconclusive = "cannot start watcher: " + err.Error()
 		return
 	}
-	for name, a := range p.Points {
-		d2cli.VerifSetPoint(name, a)
+	if !p.Proc {
+		for name, a := range p.Points {
+			d2cli.VerifSetPoint(name, a)
+		}
+		h.goRun()
 	}
-	h.goRun()
 	quiesces, finalChecks := 0, 0
 	knownDead := false
 	blockedButCurrent := 0
@@ -308,7 +331,9 @@ func execC44(c run.Case) (res run.Result) {
 		quiesces++
 		m := h.m
 		// model self check against the real channel state
-		if st := h.vw.State(); st.CompilePending != 0 {
+		if h.proc != nil {
+			// no access to the channel state of another process
+		} else if st := h.vw.State(); st.CompilePending != 0 {
 			h.pump()
 			if q, _ := h.quiescent(); q && h.vw.State().CompilePending != 0 {
 				h.inconclusive("harness model says quiescent but compileCh is not empty")
@@ -387,7 +412,7 @@ func execC44(c run.Case) (res run.Result) {
 				h.waitFor("a write loop held at the gate and the compile loop parked", func() bool { return h.m.held["wl-before-select"] > 0 && h.m.compileIdle() || watchBlocked() })
 			}
 		case "connect":
-			cl, status, err := c44Dial(context.Background(), h.vw.Addr(), st.C)
+			cl, status, err := c44Dial(context.Background(), h.addr(), st.C, h.trace)
 			if err != nil {
 				h.inconclusive(fmt.Sprintf("dial failed (status %d): %v", status, err))
 				break
@@ -405,16 +430,23 @@ func execC44(c run.Case) (res run.Result) {
 		case "sleep":
 			time.Sleep(time.Duration(st.Ms) * time.Millisecond)
 		case "arm":
-			d2cli.VerifSetPoint(st.Point, *st.Act)
+			if !p.Proc {
+				d2cli.VerifSetPoint(st.Point, *st.Act)
+			}
 		case "release":
-			n := d2cli.VerifRelease(st.Point)
-			res.Add("gate_holds", n)
+			if !p.Proc {
+				n := d2cli.VerifRelease(st.Point)
+				res.Add("gate_holds", n)
+			}
 		case "quiesce":
 			checkQuiescent()
 		}
 	}
 	h.pump()
-	hits := d2cli.VerifPointHits()
+	hits := map[string]int{}
+	if !p.Proc {
+		hits = d2cli.VerifPointHits()
+	}
 	h.shutdown()
 	h.flushViolations()
 
@@ -442,6 +474,9 @@ func execC44(c run.Case) (res run.Result) {
 		sigS += c.sigSent
 	}
 	res.Inc("histories")
+	if p.Proc {
+		res.Inc("histories_real_d2_watch_process")
+	}
 	res.Add("versions_written", m.writesDone)
 	res.Add("versions_compiled_distinct", versionsCompiled)
 	res.Add("versions_delivered_distinct", len(delivered))
